@@ -258,4 +258,5 @@ Proof.
     injection H as <- <-. destruct (f XSetMute (ABool m)) as [k| | | | | | |] eqn:Ea; try exact I.
     destruct (ordinary k) eqn:E; [exact I|]. apply ordinary_false in E. subst k.
     right. exists Mx, XSetMute, (ABool m). split; [now left|split; [assumption|now left]].
+  - (* Core.get_uri_schemes *) injection H as <- <-. exact I.
 Qed.
